@@ -436,6 +436,11 @@ class PLSSParser:
             chunker = PLSSChunker(self.text, layout=self.layout)
             self.blocks = chunker.blocks
             self.unused_components.extend(chunker.unused_blocks)
+            # Text outside of every chunk will not be parsed into tracts,
+            # but wording in it may still warrant a warning flag.
+            for _, unused_text in chunker.unused_blocks:
+                ChunkParser.gen_flags_chunk(
+                    None, chunk=unused_text, parent=self)
 
         for chunk in self.blocks:
             chunk_layout = None
@@ -1027,7 +1032,7 @@ class ChunkParser:
         }
         self.tract_components.append(new)
 
-    def gen_flags_chunk(self):
+    def gen_flags_chunk(self, chunk=None, parent=None):
         """
         Generate warning flags and corresponding context lines.
         :return: ``None`` (results stored to ``.w_flags`` and
@@ -1041,7 +1046,10 @@ class ChunkParser:
             less_except_regex: ("less_except", (0, 40)),
             isfa_regex: ("insofar", (0, 40)),
         }
-        chunk = self.text
+        if chunk is None:
+            chunk = self.text
+        if parent is None:
+            parent = self.parent
         max_end = len(chunk)
         for rgx, how_to_handle in rgx_and_how_to_handle.items():
             flag, (left_context, right_context) = how_to_handle
@@ -1070,8 +1078,8 @@ class ChunkParser:
                 context = chunk[i:j]
                 context = context.replace('\n', ' ').strip()
                 context = f"<{context}>"
-                self.parent.w_flags.append(flag)
-                self.parent.w_flag_lines.append((flag, context))
+                parent.w_flags.append(flag)
+                parent.w_flag_lines.append((flag, context))
                 # Start next search from the end of this context string.
                 start_pos = j
 
